@@ -15,6 +15,8 @@ def hook_commits():
 def write():
     checks = []
     claimed = set()
+    ltp = os.path.join(core.ROOT, "props", "level_texts.json")
+    ltexts = json.load(open(ltp)) if os.path.exists(ltp) else {}
     for pid in core.all_props():
         P = core.load_plugin(pid)
         claimed.add(pid)
@@ -25,7 +27,7 @@ def write():
             "evidence_file": "evidence/%s.json" % pid,
             "replay_cmd_template": "bin/vp replay {path}",
             "engine": "rocq",
-            "level_claimed": {"category": getattr(P, "LEVEL", "proof"), "text": getattr(P, "LEVEL_TEXT", ""),
+            "level_claimed": {"category": getattr(P, "LEVEL", "proof"), "text": getattr(P, "LEVEL_TEXT", "") or ltexts.get(pid, {}).get("text", ""),
                               "design_ref": getattr(P, "DESIGN_REF", "DESIGN.md §9 " + pid)},
             "level_note": getattr(P, "LEVEL_NOTE", "trusted: " + "; ".join(getattr(P, "TRUSTED_BASE", [])) +
                                   " | assumed: " + "; ".join(getattr(P, "ASSUMPTIONS", []))),
